@@ -5,6 +5,8 @@ V = os.path.dirname(os.path.dirname(os.path.abspath(__file__)))
 props = [json.loads(l) for l in open(os.path.join(V, "properties.jsonl"))]
 TB = "trusted: TLC, the L1 transcription (Script.tla/MsSpec.tla/Verify.tla/Policy.tla...), alpha and rust-bitcoin/secp256k1/bitcoin_hashes; bounds in evidence"
 C = {
+ "C20": ("translate-pipeline", "model_checking", "Subst(ast, f) and KeysPre(ast) of the TLA+ AST model vs. real translate_pk / iter_pk / for_each_key / for_any_key on every enumerated miniscript and its descriptor wrapper, 6 mappings + composition + String->concrete", "5/C20",
+         "TLA+ structural substitution / pre-order key sequence vs. library translation and iteration (Trace_Translate)"),
  "C01": ("sat-pipeline", "model_checking", "every satisfaction returned by get_satisfaction[_mall] and plan+satisfy, for every canonical well-typed B miniscript up to the node bound in 4 contexts / 5 wrappers and every relevant asset world, is alpha-abstracted and executed by the TLA+ Script VM under consensus+standardness rules of its output type; bounded-exhaustive", "5/C01",
          "TLA+ Script VM + Verify.tla judged by TLC on traces of the real satisfier (Trace_Sat); MC_SatSet lemma"),
  "C02": ("sat-pipeline", "model_checking", "every 'no satisfaction' answer over the same domain is confronted with the complete SatSet of MsSpec.tla (itself cross-checked against brute-force VM search by MC_SatSet)", "5/C02",
@@ -31,6 +33,8 @@ C = {
          "TLA+ state machine Psbt.tla model-checked (MC_Psbt) + trace validation of real PSBT histories (Trace_Psbt, chain shape)"),
  "C15": ("tap-pipeline", "model_checking", "for all tree shapes up to the leaf bound (+ repeated-script variants, degenerate chains up to depth 129) the real library's merkle root, output key, control blocks, leaf order and depths are compared with the BIP341 commitment algebra of Taproot.tla (canonical unordered-pair terms), through parse / print / translate / combine / spend-info iteration", "5/C15",
          "TLA+ BIP341 term algebra (Taproot.tla) vs. real TrSpendInfo / TapTree, hashes named by alpha (Trace_Tap)"),
+ "C16": ("desc-pipeline", "exploration", "the commuting diagram of standard encodings (scriptPubKey template and commitments, explicit script = MsSpec!Encode over independently derived keys, address per network, script code, unsigned scriptSig, derivation index search, multipath split, sortedmulti order independence) over an exhaustively enumerated structure space (output shapes x key forms x key orders x networks x indices); byte-level facts are alpha's (rust-bitcoin), the diagram and enumeration are TLA+", "5/C16",
+         "TLA+ enumeration (Gen_Desc) + diagram of required facts and MsSpec!Encode comparison (Trace_Desc); alpha facts from rust-bitcoin / bip32"),
  "C17": ("plan-pipeline", "model_checking", "plans from real Assets vs. the equivalent satisfier (existence equivalence, byte-identical completion) and necessity/sufficiency of reported locks by re-completing the plan in transactions with exact / weaker locks and validating each in the TLA+ VM; bounded-exhaustive over ASTs x wrappers x worlds x 2 modes", "5/C17",
          "TLA+ VerifyInput on plan completions under exact and weakened lock environments (Trace_Plan)"),
  "C18": ("policy-pipeline", "model_checking", "normalized/sorted/at_age/at_lock_time/entails/minimum_n_keys/n_keys/Concrete::lift/check_timelocks of the real library on an exhaustively enumerated policy domain, each answer judged by TLC against atom truth tables (all assignments) of PolicyAtoms.tla; entails on all ordered pairs of the small set", "5/C18",
@@ -39,6 +43,8 @@ C = {
          "structural identity of abstract ASTs (TLA+ Gen_Pairs) vs. library Eq/Ord/Hash matrix (Trace_Eq)"),
 }
 ENG = {
+ "desc-pipeline": ("bin/check (run_desc)", "TLC Gen_Desc -> msverif desc -> TLC Trace_Desc"),
+ "translate-pipeline": ("bin/check (run_translate)", "TLC Gen_Ast -> msverif translate -> TLC Trace_Translate"),
  "tap-pipeline": ("bin/check (run_tap)", "TLC Gen_Tap -> msverif tap -> TLC Trace_Tap"),
  "psbt-pipeline": ("bin/check (run_psbt)", "TLC MC_Psbt + TLC Gen_Psbt -> msverif psbt (real PSBT replay) -> TLC Trace_Psbt"),
  "policy-pipeline": ("bin/check (run_policy)", "TLC Gen_Policy -> msverif policy -> TLC Trace_Policy"),
